@@ -34,7 +34,7 @@ pub const URIS: [&str; 3] = ["urn:x", "urn:y", "urn:z"];
 pub const LOCALS: [&str; 9] = ["a", "b", "c", "d", "a", "b", "div", "text", "a-b"];
 pub const ATTR_LOCALS: [&str; 5] = ["id", "k", "n", "k", "lang"];
 pub const PI_TARGETS: [&str; 3] = ["pi", "a", "xml-stylesheet"];
-pub const LANGS: [&str; 7] = ["en", "en-US", "EN", "fr", "", "de-x", "en-"];
+pub const LANGS: [&str; 10] = ["en", "en-US", "EN", "fr", "", "de-x", "en-", "zh-Hant-TW", "sr-Latn-RS", "de-CH-1996"];
 pub const VALUES: [&str; 40] = [
     "", "1", "2", "10", " 3 ", "x", "abc", "-0.5", "1e2", "\u{e9}", "\u{65e5}\u{672c}", "0", "-0", "1.50",
     ".5", "5.", "NaN", "Infinity", "true", "false", "a b", " a  b ", "\t", "a\nb", "en", "12345", "+1",
@@ -547,7 +547,7 @@ impl ExprGen {
             17 => Expr::call("boolean", vec![self.gen(rng, Ty::Any, d)]),
             18..=19 => {
                 let arg = if rng.pct(80) {
-                    Expr::lit(*rng.pick(&["en", "EN", "en-US", "fr", "", "de", "en-", "e"]))
+                    Expr::lit(*rng.pick(&["en", "EN", "en-US", "fr", "", "de", "en-", "e", "zh-Hant", "sr-latn", "de-CH", "zh", "zh-Hant-TW", "de-CH-1996-x"]))
                 } else {
                     self.gen(rng, Ty::Str, d)
                 };
